@@ -6,6 +6,8 @@ import (
 	"go/token"
 	"go/types"
 	"strings"
+
+	"golang.org/x/tools/go/cfg"
 )
 
 // Round 10 (DESIGN 8.20): rules for the changes of the tenth seeding round that the earlier rules missed.
@@ -465,7 +467,12 @@ func runPoolExact(c *Ctx) {
 			return true
 		}
 		n++
-		exact := param != nil && ObjOf(info, StripConv(info, call.Args[0])) == param
+		exact := false
+		for _, d := range append([]ast.Expr{call.Args[0]}, resolveExprsAll(f, StripConv(info, call.Args[0]))...) {
+			if param != nil && ObjOf(info, StripConv(info, d)) == param {
+				exact = true
+			}
+		}
 		c.Check(exact, fmt.Sprintf("pool-exact/new#%d", n), call.Pos(), "the pool's buffers have exactly the chunk size asked for",
 			"chunkPoolFor creates a pool of "+types.ExprString(call.Args[0])+" bytes for chunk size "+func() string {
 				if param != nil {
@@ -540,4 +547,224 @@ func runMetadataNamespace(c *Ctx) {
 		return
 	}
 	c.Bad("payload-in-metadata-dir/transfer.validateRelPath", vr.Pos(), "validateRelPath accepts paths below `"+name+"`, the directory the receiver keeps its own resume metadata in")
+}
+
+// ---------------------------------------------------------------------------
+
+func init() {
+	Register(&Rule{
+		Name:  "R-REPORT-ALWAYS-SENT",
+		Props: []string{"C04"},
+		Min:   1,
+		Doc: "a receiver that resumes tells the sender what it has for every file: in the FileBegin handler of RecvManifestMultiStream every successful return is reached past the call that builds the resume report, or past `opts.Resume` being false - " +
+			"a file whose metadata mark every chunk is no exception (acknowledging it at once, without a report, makes the sender wait out its grace period and send the whole file again; every frame is then discarded)",
+		Run: runReportAlwaysSent,
+	})
+	Register(&Rule{
+		Name:  "R-GRACE-PER-RECIPIENT",
+		Props: []string{"C10", "C11"},
+		Min:   1,
+		Doc: "every recipient of a broadcast gets its own grace period: in internal/peers no deadline computed from time.Now() outside a loop over recipients is used inside it - with one deadline for the whole second pass, a recipient that has stopped reading uses it up, and the ones served after it get a single attempt with the deadline already over: " +
+			"a recipient that reads steadily but whose queue is full at that instant is marked as not reading and cut off",
+		Run: runGracePerRecipient,
+	})
+	Register(&Rule{
+		Name:  "R-ENVELOPE-DECODED",
+		Props: []string{"C10"},
+		Min:   1,
+		Doc: "a frame that did not decode is not routed: in the read loop of handleWebSocket no path from the failing edge of json.Unmarshal into the envelope reaches Hub.SendTo / Broadcast / BroadcastExcept - an envelope whose `to` had another type decodes with To empty, which is the spelling of a broadcast: a message its author addressed to one peer is shown to the whole session",
+		Run: runEnvelopeDecoded,
+	})
+}
+
+func runReportAlwaysSent(c *Ctx) {
+	p := c.P
+	recv := p.Func("transfer.RecvManifestMultiStream")
+	if recv == nil {
+		c.MissingAnchor("transfer.RecvManifestMultiStream")
+		return
+	}
+	var hfb, bri *FuncInfo
+	for _, k := range allKids(recv) {
+		if strings.HasSuffix(k.Name, "$handleFileBegin") {
+			hfb = k
+		}
+		if strings.HasSuffix(k.Name, "$buildResumeInfo") {
+			bri = k
+		}
+	}
+	if hfb == nil || bri == nil {
+		c.MissingAnchor("RecvManifestMultiStream$handleFileBegin / $buildResumeInfo")
+		return
+	}
+	spec := &PassSpec{Name: "report-sent", Vias: []Via{
+		{Immediate: true, Call: func(g *FuncInfo, call *ast.CallExpr) (string, bool) {
+			if id, ok := ast.Unparen(call.Fun).(*ast.Ident); ok {
+				if v, ok := ObjOf(g.Info(), id).(*types.Var); ok && p.ClosureOfVar(v) == bri {
+					return "report-settled", true
+				}
+			}
+			return "", false
+		}},
+		{Cond: func(g *FuncInfo, e ast.Expr) (string, bool, bool) {
+			if sel, ok := ast.Unparen(e).(*ast.SelectorExpr); ok && sel.Sel.Name == "Resume" {
+				if t := g.Info().TypeOf(sel.X); t != nil && strings.HasSuffix(t.String(), "transfer.Options") {
+					return "report-settled", false, true
+				}
+			}
+			return "", false, false
+		}},
+	}}
+	n := 0
+	for _, b := range hfb.CFG().Blocks {
+		ret, ok := IsReturnExit(b)
+		if !ok || len(ret.Results) != 1 || types.ExprString(ret.Results[0]) != "nil" {
+			continue
+		}
+		n++
+		c.Check(spec.Passed(hfb, NodeRef{b, len(b.Nodes) - 1}, "report-settled"), fmt.Sprintf("report-always-sent/return#%d", n), ret.Pos(), "the file's resume report was built (or resume is off) before FileBegin is done with",
+			"handleFileBegin can return successfully for a resumable file without having built its resume report: the sender, which asked for it, waits out its grace period and then sends from chunk 0 - work the metadata mark as complete is requested again, "+
+				"and for a file that is acknowledged at once every frame of it is discarded on arrival")
+	}
+	if n == 0 {
+		c.Bad("report-always-sent/none", hfb.Pos(), "handleFileBegin has no successful return")
+	}
+}
+
+func runGracePerRecipient(c *Ctx) {
+	p := c.P
+	n := 0
+	for _, f := range p.FuncsIn("internal/peers") {
+		if f.Body == nil || strings.HasSuffix(p.Fset.Position(f.Pos()).Filename, "_test.go") {
+			continue
+		}
+		info := f.Info()
+		// deadlines: X := time.Now().Add(..)
+		InspectNoLits(f.Body, func(m ast.Node) bool {
+			as, ok := m.(*ast.AssignStmt)
+			if !ok || len(as.Lhs) != 1 || len(as.Rhs) != 1 {
+				return true
+			}
+			call, ok := ast.Unparen(as.Rhs[0]).(*ast.CallExpr)
+			if !ok || !calleeIs(info, call, "time", "Time.Add") {
+				return true
+			}
+			sel, _ := ast.Unparen(call.Fun).(*ast.SelectorExpr)
+			if sel == nil {
+				return true
+			}
+			if now, ok := ast.Unparen(sel.X).(*ast.CallExpr); !ok || !calleeIs(info, now, "time", "Now") {
+				return true
+			}
+			d := ObjOf(info, as.Lhs[0])
+			if d == nil {
+				return true
+			}
+			n++
+			// used inside a range loop (over recipients) that does not contain the definition
+			var bad token.Pos
+			ast.Inspect(f.Body, func(x ast.Node) bool {
+				rs, ok := x.(*ast.RangeStmt)
+				if !ok || (rs.Pos() <= as.Pos() && as.End() <= rs.End()) {
+					return true
+				}
+				ast.Inspect(rs.Body, func(y ast.Node) bool {
+					if id, ok := y.(*ast.Ident); ok && info.Uses[id] == d {
+						bad = id.Pos()
+					}
+					return true
+				})
+				return true
+			})
+			c.Check(bad == token.NoPos, fmt.Sprintf("grace-per-recipient/%s#%d", f.Name, n), as.Pos(), "the deadline is not shared by the iterations of a loop over recipients",
+				"the deadline "+d.Name()+" is computed once in front of a loop over recipients and used inside it (at "+p.Pos(bad)+"): the first recipient that does not read uses the whole grace period up, "+
+					"every recipient served after it gets one attempt with the deadline already over, and one that reads steadily but whose queue is full at that instant is cut off as not reading")
+			return true
+		})
+	}
+	if n == 0 {
+		c.Bad("grace-per-recipient/none", token.NoPos, "found no deadline computed from time.Now() in internal/peers (the waits for room have no bound?)")
+	}
+}
+
+func runEnvelopeDecoded(c *Ctx) {
+	p := c.P
+	hw := p.Func("cmd/thruserv.handleWebSocket")
+	if hw == nil {
+		c.MissingAnchor("cmd/thruserv.handleWebSocket")
+		return
+	}
+	info := hw.Info()
+	g := hw.CFG()
+	n := 0
+	g.EachNode(func(r NodeRef) {
+		// err := json.Unmarshal(message, &env)  (also as the init of an if)
+		as, ok := r.Node().(*ast.AssignStmt)
+		if !ok || len(as.Rhs) != 1 || len(as.Lhs) != 1 {
+			return
+		}
+		call, ok := ast.Unparen(as.Rhs[0]).(*ast.CallExpr)
+		if !ok || !calleeIs(info, call, "encoding/json", "Unmarshal") || len(call.Args) != 2 {
+			return
+		}
+		if t := info.TypeOf(call.Args[1]); t == nil || !strings.Contains(t.String(), "protocol.Envelope") {
+			return
+		}
+		errObj := ObjOf(info, as.Lhs[0])
+		// the block that tests it
+		for _, b := range g.Blocks {
+			cond, t, f, ok := CondEdges(b)
+			if !ok || !b.Live {
+				continue
+			}
+			o, nilOnTrue, isNil := NilTest(info, cond)
+			if !isNil || o != errObj || !g.Reaches(r, NodeRef{b, 0}) {
+				continue
+			}
+			failed := t
+			if nilOnTrue {
+				failed = f
+			}
+			n++
+			routed := token.NoPos
+			seen := map[*cfg.Block]bool{}
+			var walk func(x *cfg.Block)
+			walk = func(x *cfg.Block) {
+				if seen[x] || routed != token.NoPos {
+					return
+				}
+				seen[x] = true
+				for _, nd := range x.Nodes {
+					// the next frame: stop
+					stop := false
+					InspectNoLits(nd, func(m ast.Node) bool {
+						if c2, ok := m.(*ast.CallExpr); ok {
+							if calleeIs(info, c2, "github.com/gorilla/websocket", "Conn.ReadMessage") {
+								stop = true
+							}
+							if h := p.CalleeInfo(info, c2); h != nil && (h.Name == "peers.(*Hub).SendTo" || h.Name == "peers.(*Hub).Broadcast" || h.Name == "peers.(*Hub).BroadcastExcept") {
+								routed = c2.Pos()
+							}
+						}
+						return true
+					})
+					if stop {
+						return
+					}
+				}
+				for _, s := range x.Succs {
+					if s.Live {
+						walk(s)
+					}
+				}
+			}
+			walk(failed)
+			c.Check(routed == token.NoPos, fmt.Sprintf("envelope-decoded/unmarshal#%d", n), cond.Pos(), "a frame that did not decode is dropped before routing",
+				"a frame whose JSON did not decode into the envelope can reach the routing at "+p.Pos(routed)+": json.Unmarshal leaves a field of another type at its zero value, and an envelope with To empty is a broadcast - "+
+					"a message its author addressed to one peer (`\"to\": [\"bob\"]`) is delivered to every peer of the session under the author's name")
+		}
+	})
+	if n == 0 {
+		c.Bad("envelope-decoded/none", hw.Pos(), "handleWebSocket does not test the error of json.Unmarshal into the envelope")
+	}
 }
